@@ -1,18 +1,24 @@
 import QuiverModel.Core.Builtins.Integer
+import QuiverModel.Core.Builtins.Binary
+import QuiverModel.Core.Builtins.Vector
 import QuiverModel.Core.Prelude
 /-
 Argument values of pure builtins and the by-name dispatcher that the C12 driver and the
-correspondence use. `BArg` is first-order: integers, binaries (flat bytes at this level — rope
-shapes are added by `Core/Bytes`), tuples. A builtin applied to a value of the wrong kind answers
-`TypeMismatch` exactly where the Rust extractor does; wrong tuple length answers `InvalidArgument`.
+correspondence use. `BArg` is first-order: integers, binaries (the rope stored in the heap slot),
+tuples (`tup []` is nil). A builtin applied to a value of the wrong shape answers `TypeMismatch`
+exactly where the Rust pattern match does (`InvalidArgument` for a wrong tuple length in the
+integer family's `extract_two_*`).
 -/
 namespace QM.Builtins
+open QM.Bytes
 
 inductive BArg where
   | int (z : Int)
-  | bin (bs : List UInt8)
+  | bin (r : Rope)
   | tup (fs : List BArg)
   deriving Inhabited, Repr
+
+def BArg.nil : BArg := .tup []
 
 /-- `extract_two_bigints` -/
 def twoInts : BArg → Outcome (Int × Int)
@@ -20,6 +26,20 @@ def twoInts : BArg → Outcome (Int × Int)
     if fs.length ≠ 2 then .err .invalidArgument
     else match fs with
       | [.int a, .int b] => .ok (a, b)
+      | _ => .err .typeMismatch
+  | _ => .err .typeMismatch
+
+/-- `extract_two_integers` (bitwise family): each field is type-checked and narrowed to `i64`
+    in turn, so an out-of-range first operand is reported before an ill-typed second one. -/
+def twoIntsNarrowed : BArg → Outcome (Int × Int)
+  | .tup fs =>
+    if fs.length ≠ 2 then .err .invalidArgument
+    else match fs with
+      | [.int a, y] =>
+        (toI64 a).bind fun _ =>
+          match y with
+          | .int b => .ok (a, b)
+          | _ => .err .typeMismatch
       | _ => .err .typeMismatch
   | _ => .err .typeMismatch
 
@@ -34,6 +54,8 @@ def callInteger (name : String) (arg : BArg) : Option (Outcome BArg) :=
   let un (f : Int → Outcome Int) : Outcome BArg := liftInt ((oneInt arg).bind f)
   let bi (f : Int → Int → Outcome Int) : Outcome BArg :=
     liftInt ((twoInts arg).bind (fun (a, b) => f a b))
+  let bw (f : Int → Int → Outcome Int) : Outcome BArg :=
+    liftInt ((twoIntsNarrowed arg).bind (fun (a, b) => f a b))
   match name with
   | "integer_abs" => some (un integerAbs)
   | "integer_sqrt" => some (un integerSqrt)
@@ -44,27 +66,163 @@ def callInteger (name : String) (arg : BArg) : Option (Outcome BArg) :=
   | "integer_modulo" => some (bi integerModulo)
   | "integer_gcd" => some (bi integerGcd)
   | "integer_compare" => some (bi integerCompare)
-  | "integer_and" => some (bi integerAnd)
-  | "integer_or" => some (bi integerOr)
-  | "integer_xor" => some (bi integerXor)
+  | "integer_and" => some (bw integerAnd)
+  | "integer_or" => some (bw integerOr)
+  | "integer_xor" => some (bw integerXor)
   | "integer_not" => some (un integerNot)
-  | "integer_shift" => some (bi integerShift)
+  | "integer_shift" => some (bw integerShift)
   | "integer_popcount" => some (un integerPopcount)
   | _ => none
 
-/-! ### S-expression codec: `(i <dec>)`, `(b <hex>)` (empty binary: `(b)`), `(t v …)` -/
+/-! ### argument shapes of the binary and vector families (any mismatch: `TypeMismatch`) -/
+
+def argB : BArg → Outcome Rope
+  | .bin r => .ok r
+  | _ => .err .typeMismatch
+def argBB : BArg → Outcome (Rope × Rope)
+  | .tup [.bin a, .bin b] => .ok (a, b)
+  | _ => .err .typeMismatch
+def argBI : BArg → Outcome (Rope × Int)
+  | .tup [.bin a, .int x] => .ok (a, x)
+  | _ => .err .typeMismatch
+def argBII : BArg → Outcome (Rope × Int × Int)
+  | .tup [.bin a, .int x, .int y] => .ok (a, x, y)
+  | _ => .err .typeMismatch
+def argBIII : BArg → Outcome (Rope × Int × Int × Int)
+  | .tup [.bin a, .int x, .int y, .int z] => .ok (a, x, y, z)
+  | _ => .err .typeMismatch
+def argBIIII : BArg → Outcome (Rope × Int × Int × Int × Int)
+  | .tup [.bin a, .int x, .int y, .int z, .int u] => .ok (a, x, y, z, u)
+  | _ => .err .typeMismatch
+def argBBI : BArg → Outcome (Rope × Rope × Int)
+  | .tup [.bin a, .bin b, .int x] => .ok (a, b, x)
+  | _ => .err .typeMismatch
+def argBIB : BArg → Outcome (Rope × Int × Rope)
+  | .tup [.bin a, .int x, .bin b] => .ok (a, x, b)
+  | _ => .err .typeMismatch
+
+def retBin (o : Outcome Rope) : Outcome BArg := o.map BArg.bin
+def retInt (o : Outcome Int) : Outcome BArg := o.map BArg.int
+def retOptBin (o : Outcome (Option Rope)) : Outcome BArg :=
+  o.map fun | some r => BArg.bin r | none => BArg.nil
+def retOptInt (o : Outcome (Option Int)) : Outcome BArg :=
+  o.map fun | some z => BArg.int z | none => BArg.nil
+def retOptNat (o : Outcome (Option Nat)) : Outcome BArg :=
+  o.map fun | some n => BArg.int (Int.ofNat n) | none => BArg.nil
+
+def callBinary (name : String) (arg : BArg) : Option (Outcome BArg) :=
+  match name with
+  | "binary_new" => some (retBin ((oneInt arg).bind binaryNew))
+  | "binary_length" => some (retInt ((argB arg).bind binaryLength))
+  | "binary_concat" => some (retBin ((argBB arg).bind fun (a, b) => binaryConcat a b))
+  | "binary_repeat" => some (retBin ((argBI arg).bind fun (a, c) => binaryRepeat a c))
+  | "binary_and" => some (retBin ((argBB arg).bind fun (a, b) => binaryAnd a b))
+  | "binary_or" => some (retBin ((argBB arg).bind fun (a, b) => binaryOr a b))
+  | "binary_xor" => some (retBin ((argBB arg).bind fun (a, b) => binaryXor a b))
+  | "binary_not" => some (retBin ((argB arg).bind binaryNot))
+  | "binary_shift" => some (retBin ((argBI arg).bind fun (a, s) => binaryShift a s))
+  | "binary_popcount" => some (retInt ((argB arg).bind binaryPopcount))
+  | "binary_get" => some (retInt ((argBIII arg).bind fun (a, x, y, z) => binaryGet a x y z))
+  | "binary_set" => some (retBin ((argBIIII arg).bind fun (a, x, y, v, z) => binarySet a x y v z))
+  | "binary_slice" => some (retBin ((argBII arg).bind fun (a, s, e) => binarySlice a s e))
+  | "binary_index" => some (retOptNat ((argBII arg).bind fun (a, b, o) => binaryIndex a b o))
+  | "binary_hash32" => some (retInt ((argB arg).bind binaryHash32))
+  | "binary_hash64" => some (retInt ((argB arg).bind binaryHash64))
+  | "binary_append" => some (retBin ((argBII arg).bind fun (a, v, n) => binaryAppend a v n))
+  | _ => none
+
+def callVector (name : String) (arg : BArg) : Option (Outcome BArg) :=
+  let bbi (f : Rope → Rope → Int → Outcome (Option Rope)) : Outcome BArg :=
+    retOptBin ((argBBI arg).bind fun (a, b, w) => f a b w)
+  match name with
+  | "vector_add" => some (bbi vectorAdd)
+  | "vector_subtract" => some (bbi vectorSubtract)
+  | "vector_multiply" => some (bbi vectorMultiply)
+  | "vector_less_than" => some (bbi vectorLessThan)
+  | "vector_equal" => some (bbi vectorEqual)
+  | "vector_greater_than" => some (bbi vectorGreaterThan)
+  | "vector_dot" => some (retOptInt ((argBBI arg).bind fun (a, b, w) => vectorDot a b w))
+  | "vector_take" => some (retOptBin ((argBIB arg).bind fun (d, w, m) => vectorTake d w m))
+  | "vector_get" => some (retOptInt ((argBII arg).bind fun (a, w, i) => vectorGet a w i))
+  | "vector_push" => some (retOptBin ((argBII arg).bind fun (a, w, v) => vectorPush a w v))
+  | "vector_sum" => some (retOptInt ((argBI arg).bind fun (a, w) => vectorSum a w))
+  | _ => none
+
+/-- Every modelled pure builtin by registry name; `none` = no model. -/
+def callBuiltin (name : String) (arg : BArg) : Option (Outcome BArg) :=
+  match callInteger name arg with
+  | some o => some o
+  | none =>
+    match callBinary name arg with
+    | some o => some o
+    | none => callVector name arg
+
+/-- the names `callBuiltin` answers for (checked against the regenerated registry table) -/
+def modelledNames : List String :=
+  ["integer_abs", "integer_sqrt", "integer_add", "integer_subtract", "integer_multiply",
+   "integer_divide", "integer_modulo", "integer_gcd", "integer_compare", "integer_and",
+   "integer_or", "integer_xor", "integer_not", "integer_shift", "integer_popcount",
+   "binary_new", "binary_length", "binary_concat", "binary_repeat", "binary_and", "binary_or",
+   "binary_xor", "binary_not", "binary_shift", "binary_popcount", "binary_get", "binary_set",
+   "binary_slice", "binary_index", "binary_hash32", "binary_hash64", "binary_append",
+   "vector_add", "vector_subtract", "vector_multiply", "vector_less_than", "vector_equal",
+   "vector_greater_than", "vector_dot", "vector_take", "vector_get", "vector_push", "vector_sum"]
+
+/-! ### S-expression codec
+  values: `(i <dec>)`, `(b <hex>)` (empty binary: `(b)`), `(t v …)`, `(r <rope>)`
+  ropes (built with the smart constructors, exactly like the Rust side does):
+    `(o <hex>)` | `(o)` owned · `(z n)` zeroed · `(s <rope> off len)` slice ·
+    `(c <rope> <rope>)` concat · `(x <rope> count)` tiled -/
+
+partial def ropeOfSx : Sx → Option Rope
+  | .list [.atom "o"] => some (.owned [])
+  | .list [.atom "o", .atom h] => (parseHex h).map Rope.owned
+  | .list [.atom "z", n] => (Sx.asNat n).map Rope.zeroed
+  | .list [.atom "s", p, off, l] =>
+    match ropeOfSx p, Sx.asNat off, Sx.asNat l with
+    | some p, some off, some l => Rope.mkSlice p off l
+    | _, _, _ => none
+  | .list [.atom "c", a, b] =>
+    match ropeOfSx a, ropeOfSx b with
+    | some a, some b => match Rope.mkConcat a b with | .ok c => some c | _ => none
+    | _, _ => none
+  | .list [.atom "x", u, c] =>
+    match ropeOfSx u, Sx.asNat c with
+    | some u, some c => some (Rope.mkTiled u c)
+    | _, _ => none
+  | _ => none
 
 partial def BArg.ofSx : Sx → Option BArg
   | .list [.atom "i", z] => (Sx.asInt z).map BArg.int
-  | .list [.atom "b"] => some (.bin [])
-  | .list [.atom "b", .atom h] => (parseHex h).map BArg.bin
+  | .list [.atom "b"] => some (.bin (.owned []))
+  | .list [.atom "b", .atom h] => (parseHex h).map fun bs => BArg.bin (.owned bs)
+  | .list [.atom "r", e] => (ropeOfSx e).map BArg.bin
   | .list (.atom "t" :: fs) => (fs.mapM BArg.ofSx).map BArg.tup
   | _ => none
 
+/-- results larger than this are rendered as a digest (length + probe bytes), so that maximal
+    binaries (16 MiB) can be compared without flattening them in the driver -/
+def bigThreshold : Nat := 65536
+
+def probeIndices (n : Nat) : List Nat :=
+  [0, 1, n / 4, n / 3, n / 2, n - n / 3, n - 2, n - 1]
+
+def renderRope (r : Rope) : String :=
+  if r.len ≤ bigThreshold then
+    match r.toVec with
+    | .ok [] => "(b)"
+    | .ok bs => s!"(b {toHex bs})"
+    | _ => "(b !panic)"
+  else
+    let probes := (probeIndices r.len).map fun i =>
+      match r.byteAt i with
+      | .ok (some b) => toHex [b]
+      | _ => "--"
+    s!"(B {r.len} {" ".intercalate probes})"
+
 partial def BArg.render : BArg → String
   | .int z => s!"(i {z})"
-  | .bin [] => "(b)"
-  | .bin bs => s!"(b {toHex bs})"
+  | .bin r => renderRope r
   | .tup fs => "(t" ++ String.join (fs.map (fun f => " " ++ f.render)) ++ ")"
 
 def renderOutcome : Outcome BArg → String
